@@ -2,5 +2,5 @@
 # Build the Coq development (full .vo), extract the models and build the OCaml driver. Offline; reads nothing from /repo.
 set -e
 cd "$(dirname "$0")"
-cd coq && coq_makefile -f _CoqProject -o Makefile >/dev/null && timeout 3000 make -j16 && cd ..
+cd coq && coq_makefile -f _CoqProject -o Makefile >/dev/null && (ulimit -v 24000000; timeout 3000 make -j16) && cd ..
 [ -d ocaml ] && timeout 600 make -C ocaml || true
